@@ -192,7 +192,7 @@ Definition after (s : state) (i : nat) (ok early : bool) : state :=
     | NSuccess | NCancel => tail s i x
     | _ =>
       if timedout s then tail (set_err s) i (with_st x NCancel)
-      else if canceled s then tail (set_err s) i x
+      else if canceled s then tail (set_err s) i (with_st x NCancel)      (* fix 614b59e: did not complete => canceled *)
       else if rc x <? rlimit sp then
         set_nd s i {| st := st x; rc := S (rc x); dc := dc x; att := att x; ph := PRetryWait;
                       stale := stale x; outs := outs x |}
